@@ -1,10 +1,10 @@
 package spec
 
 type C04Case struct {
-	Behaviour  string   `json:"behaviour"` // exit-now | exit-200 | exit-600 | exit-1000 | never | busy | frozen | crashed | failed-handshake
-	Proto      string   `json:"proto"`     // netrpc | grpc | grpcmux
-	Launch     string   `json:"launch"`    // cmd | runner | reattach
-	Pattern    string   `json:"pattern"`   // single | sequential | concurrent | cleanup
+	Behaviour  string   `json:"behaviour"`  // exit-now | exit-200 | exit-600 | exit-1000 | never | busy | frozen | crashed | failed-handshake
+	Proto      string   `json:"proto"`      // netrpc | grpc | grpcmux
+	Launch     string   `json:"launch"`     // cmd | runner | reattach
+	Pattern    string   `json:"pattern"`    // single | sequential | concurrent | cleanup
 	Behaviours []string `json:"behaviours"` // cleanup: one per managed client
 }
 
